@@ -1,27 +1,36 @@
 #!/bin/bash
-# Runs every seeded change against the checks, in a scratch worktree of /repo (OQ3_REPO), without
+# Runs every seeded change against the checks, in scratch worktrees of /repo (OQ3_REPO), without
 # touching /repo, /verif/evidence or /verif/replays.  Output: one line per (seed, property).
+# usage: seed_matrix.sh [out-file] [workers] [own-only]
 set -u
-WT=/tmp/seedrepo_$$
 OUT=${1:-/tmp/seed_matrix.txt}
-git -C /repo worktree add -q --detach "$WT" HEAD || exit 1
-trap 'git -C /repo worktree remove --force "$WT" >/dev/null 2>&1; rm -rf "$WT" /tmp/seedev_$$' EXIT
-export OQ3_REPO="$WT" OQ3_EVIDENCE_DIR=/tmp/seedev_$$/ev OQ3_REPLAY_DIR=/tmp/seedev_$$/rp
-: > "$OUT"
+W=${2:-4}
+OWN_ONLY=${3:-}
 ALL="C01 C02 C03 C05 C06 C07 C08 C09 C11 C12 C13 C14 C15 C19 C20"
-for d in /verif/seeded/*/; do
-  id=$(basename "$d"); own=${id%-*}
-  git -C "$WT" checkout -q -- . 
-  if ! git -C "$WT" apply "$d/patch.diff" 2>/dev/null; then echo "$id APPLY-FAILED" >> "$OUT"; continue; fi
-  res=$(cd /verif && ./check "$own" 2>/dev/null | tail -1 | grep -o "exit [0-9]")
-  echo "$id $own ${res}" >> "$OUT"
-  if [ "$res" != "exit 1" ]; then
-    for p in $ALL; do
-      [ "$p" = "$own" ] && continue
-      r=$(cd /verif && ./check "$p" 2>/dev/null | tail -1 | grep -o "exit [0-9]")
-      [ "$r" = "exit 1" ] && echo "$id $p ${r} (cross)" >> "$OUT"
-    done
-  fi
-done
-git -C "$WT" checkout -q -- .
+: > "$OUT"
+worker() {
+  k=$1
+  WT=/tmp/seedrepo_$$_$k
+  git -C /repo worktree add -q --detach "$WT" HEAD || exit 1
+  export OQ3_REPO="$WT" OQ3_EVIDENCE_DIR=/tmp/seedev_$$_$k/ev OQ3_REPLAY_DIR=/tmp/seedev_$$_$k/rp
+  i=0
+  for d in /verif/seeded/*/; do
+    i=$((i+1)); [ $((i % W)) -eq $k ] || continue
+    id=$(basename "$d"); own=${id%-*}
+    git -C "$WT" checkout -q -- .
+    if ! git -C "$WT" apply "$d/patch.diff" 2>/dev/null; then echo "$id APPLY-FAILED" >> "$OUT"; continue; fi
+    res=$(cd /verif && ./check "$own" 2>/dev/null | tail -1 | grep -o "exit [0-9]")
+    echo "$id $own ${res}" >> "$OUT"
+    if [ "$res" != "exit 1" ] && [ -z "$OWN_ONLY" ]; then
+      for p in $ALL; do
+        [ "$p" = "$own" ] && continue
+        r=$(cd /verif && ./check "$p" 2>/dev/null | tail -1 | grep -o "exit [0-9]")
+        [ "$r" = "exit 1" ] && echo "$id $p ${r} (cross)" >> "$OUT"
+      done
+    fi
+  done
+  git -C /repo worktree remove --force "$WT" >/dev/null 2>&1; rm -rf "$WT" /tmp/seedev_$$_$k
+}
+for k in $(seq 0 $((W-1))); do worker $k & done
+wait
 echo DONE >> "$OUT"
